@@ -47,6 +47,7 @@ def run(rep, tier):
         errctor(rep, c, sfx)
         position(rep, c, sfx)
         maxpos(rep, c, sfx)
+        monotone(rep, c, sfx)
         nopanic(rep, c, sfx)
 
 
@@ -537,3 +538,68 @@ def nopanic(rep, c, sfx):
             r.violation(key, where(y), "%s in %s, which runs only when error detail is on" % (what, hp))
     if nblocks == 0:
         r.lost("blocks guarded by parse_attempts.enabled")
+
+
+def monotone(rep, c, sfx):
+    """max_position only moves forward: rule() trusts `max_position > remembered` as the only sign that its remembered
+    call-stack index went stale."""
+    r = rep.rule("C15.MONOTONE" + sfx, 2,
+                 "every assignment of ParseAttempts.max_position is dominated by a test that the new value is greater than "
+                 "the current one - in the assigning function, or, when the value is a parameter, at every call site: the "
+                 "call stacks are cleared whenever max_position is set, and rule() notices that only through a strict "
+                 "increase (otherwise it splices at a stale index and panics)")
+    cg = hirq.CallGraph([c])
+
+    def greater_guard(ctx, node, value_id=None, value_expr=None):
+        for g in ctx.guards(node):
+            if g[0] not in ("if", "guard") or (g[0] == "if" and g[2] is not True):
+                continue
+            stack = [peel(g[1])]
+            while stack:
+                cnd = peel(stack.pop())
+                if kind(cnd) == "Binary" and cnd["op"] == "&&":
+                    stack += [cnd["l"], cnd["r"]]
+                    continue
+                if kind(cnd) == "Binary" and cnd["op"] in (">", "<"):
+                    big, small = (cnd["l"], cnd["r"]) if cnd["op"] == ">" else (cnd["r"], cnd["l"])
+                    sm = peel(small)
+                    if kind(sm) == "Field" and sm["name"] == "max_position":
+                        if value_id is not None and hirq.local_id(big) == value_id:
+                            return True
+                        if value_expr is not None and hirq.expr_text(big) == hirq.expr_text(value_expr):
+                            return True
+        return False
+    n = 0
+    for fn in c.bodies:
+        if fn.get("body") is None or "::tests::" in fn["path"] or fn.get("exp"):
+            continue
+        ctx = hirq.Ctx(fn)
+        for x in walk(fn["body"]):
+            if not (kind(x) == "Assign" and kind(peel(x["l"])) == "Field" and peel(x["l"])["name"] == "max_position"):
+                continue
+            n += 1
+            key = "assign:%s" % fn["path"].replace("pest::parser_state::", "")
+            vid = hirq.local_id(x["r"])
+            r.instance(key, where(x))
+            if greater_guard(ctx, x, value_id=vid, value_expr=x["r"]):
+                continue
+            pidx = [i for i, p in enumerate(fn["params"]) if p.get("k") == "PBind" and p["id"] == vid]
+            sites = cg.callers_of(fn["path"]) if pidx else []
+            if not sites:
+                r.violation(key, where(x), "max_position is assigned without a test that the new value is greater")
+                continue
+            for (p, cn) in sites:
+                caller = c.fn(p)
+                args = hirq.call_args(cn)
+                if caller is None or pidx[0] >= len(args):
+                    continue
+                cctx = hirq.Ctx(caller)
+                r.instance("call:%s->%s" % (p.replace("pest::parser_state::", ""), fn["name"]), where(cn))
+                if not greater_guard(cctx, cn, value_id=hirq.local_id(args[pidx[0]]), value_expr=args[pidx[0]]):
+                    r.violation("call:%s->%s" % (p.replace("pest::parser_state::", ""), fn["name"]), where(cn),
+                                "%s sets max_position (through %s) to `%s` without testing that it is greater than the current "
+                                "one: the call stacks are cleared while max_position stays or moves back, and the enclosing "
+                                "rule() then uses its remembered index on the shorter list" % (
+                                    p.split("::")[-1], fn["name"], hirq.expr_text(args[pidx[0]])[:50]))
+    if n == 0:
+        r.lost("assignments to ParseAttempts.max_position")
